@@ -263,6 +263,27 @@ class Env:
         if verdict == "sat":
             verdict, info = self._confirm(name, phi, groups, model)
             rec.update(info)
+        elif verdict == "unknown" and name not in self.confirmed:
+            # undecided: a generic concrete input on which the real run fails this obligation is still a genuine counterexample
+            for kind in ("generic", "generic-tiny-data"):
+                if self._nreplays >= 6 * self.max_replays:
+                    break
+                self._nreplays += 1
+                vals = self._generic_inputs(kind)
+                path = write_replay(self.pid, self.cfg_key, name, vals, None)
+                ok, out = run_replay(self.pid, path)
+                if ok:
+                    verdict = "violated"
+                    rec.update({"replay": path, "inputs": vals, "found_by": "generic replay after an undecided query"})
+                    self.confirmed[name] = path
+                    break
+                try:
+                    os.remove(path)
+                except OSError:
+                    pass
+        elif verdict == "unknown" and name in self.confirmed:
+            verdict = "violated"
+            rec.update({"replay": self.confirmed[name], "duplicate_of_confirmed": True})
         rec["verdict"] = {"unsat": "proved", "unknown": "inconclusive"}.get(verdict, verdict)
         rec["seconds"] = round(time.time() - t0, 3)
         self.results.append(rec)
@@ -401,7 +422,8 @@ class Env:
         if name in self.confirmed:
             # same obligation already confirmed by replay on another path of this configuration
             return "violated", {"replay": self.confirmed[name], "duplicate_of_confirmed": True}
-        if c.atoms:
+        if c.atoms and _mentions(phi, {a[0].get_id() for a in c.atoms}):
+            # (an obligation that does not mention any root atom cannot be an artefact of the root abstraction)
             for level in (1, 2):
                 ex = c.atom_defs(level)
                 if level == 1 and not ex:
@@ -527,6 +549,23 @@ def div_elim(fs):
         return r
 
     return [walk(f) for f in fs] + side
+
+
+def _mentions(term, ids):
+    """does the z3 term contain a constant whose ast id is in ids?"""
+    seen = set()
+    stack = [term]
+    while stack:
+        t = stack.pop()
+        i = t.get_id()
+        if i in seen:
+            continue
+        seen.add(i)
+        if i in ids:
+            return True
+        if z3.is_app(t):
+            stack.extend(t.children())
+    return False
 
 
 # ---------------------------------------------------------------------- replay files
